@@ -14,6 +14,10 @@ RULE = (
     "distinct atoms and unary decorations.  A case is non-trivial when the implementation accepted it "
     "(both sides of the comparison were then executed) or when it is a non-sentence containing a complete "
     "formula prefix"
+    "  Added clauses: the parser's AST (Grouping nodes removed) of every sentence of <= 14 tokens equals the AST "
+    'of its fully parenthesised text, calls included; model_description of a text is the same before and after '
+    'design_matrices on that text; inside a call or subscript no name, number, string or Python literal can be '
+    "replaced by another one without changing the model (sentences without '-' and with at most one '|'). "
 )
 ASSUMPTIONS = [
     "reference tokenizer / precedence table (fmc/refmodel/grammar.py) is the documented grammar",
